@@ -929,6 +929,13 @@ func writeCompatibilitySerializers(w *formatting.IndentedWriter, change dsl.Defi
 					fmt.Fprintf(w, "%s(stream, value.%s);\n", typeRwFunction(field.Type, write), tmpVarName)
 				}
 			}
+			if !write {
+				// Fields that were added since have no counterpart in the stream: they get their
+				// default value, whatever the caller's variable held before.
+				for _, added := range change.FieldsAdded {
+					fmt.Fprintf(w, "value.%s = {};\n", common.FieldIdentifierName(added.Name))
+				}
+			}
 		case *dsl.NamedTypeChange:
 			switch prev := change.PreviousDefinition().(type) {
 			case *dsl.NamedType:
